@@ -65,17 +65,17 @@ Qed.
 Fixpoint disciplined_b (g : graph xval) (sm : sem xval (list bool) nat) (fx chk : bool) (s : store xval) (ops : list xop) : bool :=
   match ops with
   | [] => true
-  | o :: r => op_ok_b g chk s o && disciplined_b g sm fx chk (fst (step g sm fx s o)) r
+  | o :: r => op_ok_b g sm chk s o && disciplined_b g sm fx chk (fst (step g sm fx s o)) r
   end.
 
-Lemma mask_ok_b_sound g st : mask_ok_b g st = true -> mask_ok g st.
+Lemma mask_ok_b_sound g sm m st : mask_ok_b g sm m st = true -> mask_ok g sm m st.
 Proof.
-  unfold mask_ok_b, mask_ok. destruct (fork st) as [fk|]; [|auto]. intros H c o Hin Hv.
-  rewrite forallb_forall in H. specialize (H (c, Some o) Hin). cbn in H.
-  apply orb_prop in H. destruct H as [H|H]; [|exact H]. exfalso. destruct (values st c); [discriminate | congruence].
+  unfold mask_ok_b, mask_ok. destruct (fork st) as [fk|]; [|auto]. intros H c o cur Hin Hv.
+  rewrite forallb_forall in H. specialize (H (c, Some o) Hin). cbn in H. rewrite Hv in H.
+  apply andb_prop in H. destruct H as [H1 H2]. split; [exact H1|]. now destruct (mix sm m o cur).
 Qed.
 
-Lemma op_ok_b_sound g chk s o : op_ok_b g chk s o = true -> op_ok g chk s o.
+Lemma op_ok_b_sound g sm chk s o : op_ok_b g sm chk s o = true -> op_ok g sm chk s o.
 Proof.
   assert (U : forall st i, (negb (i <? gn g) || negb (settable g i) || unforked_ok_b chk st) = true ->
                            i < gn g -> settable g i = true -> unforked_ok chk st).
@@ -106,7 +106,7 @@ Definition f1_ops : list xop :=
     Set_ 0 0 (Some (XS (AFin 2))); SetMode 0 None; Set_ 0 1 (Some (XS (AFin 20))); Revert 0 ].
 
 Lemma F_mix_no_axis (l : list nspec) (sm : sem xval (list bool) nat) : (forall k, k < length l -> s_axis (nth k l nspec0) = false) -> F_mix (mk_graph l) sm.
-Proof. intros H k m sel olds curs Hk _ Ha. cbn in *. rewrite H in Ha by exact Hk. discriminate. Qed.
+Proof. intros H k m sel olds curs news x Hk _ Ha. cbn in *. rewrite H in Ha by exact Hk. discriminate. Qed.
 
 (** the 5+3-node graph of tests/unit_tests/variables/test_state.py, in the implementation's topological order:
     mean, nll_regul_ind_sum_ind, scale, t, x, nll_regul_ind_sum, model = x*t (here 2*x + 3*t), nll_regul_x *)
